@@ -74,6 +74,7 @@ structure PInfo where
   pc : PC := .strict
   -- groups
   gref : Bool := false           -- `self.ref is not None`
+  gname : Option QN := none      -- `self.name` of a group: set for named (global) groups and references
   hasParent : Bool := true       -- `self.parent is not None`
   mixed : Bool := false
   deriving Repr, Inhabited
@@ -84,6 +85,13 @@ structure Ctx where
   /-- pairs (derived type id, base type id) with `self.type.elem is other.type.elem or
       self.type.is_derived(other.type, 'restriction')` -/
   derivOk : List (Nat × Nat) := []
+  /-- `true` = the tree carries notes/fixes/C14-zero-occurs-and-empty-group.patch: a wildcard or an
+      element with maxOccurs=0 and an empty group restrict only what is emptiable (three clauses of
+      finding C14-F0); `false` = the pinned clauses -/
+  repaired : Bool := false
+  /-- `true` = the tree carries notes/fixes/C14-open-content-empty-group.patch (finding C14-F7): the
+      open-content clause is checked for a derived type with an empty content group as well -/
+  repairedOC : Bool := false
   deriving Inhabited
 
 def Ctx.of (C : Ctx) (i : Nat) : PInfo := C.info.getD i default
@@ -265,17 +273,23 @@ def groupHasOccurs (v11 : Bool) (self other : Particle) : Bool :=
 /-- `other.is_matching(item.name)` as used by the rules: `other` an element (name or substitute), a
     wildcard (namespace / notQName; XSD 1.1 `##defined` excludes names of global declarations), or a
     group (`XsdComponent.is_matching`: equality of the names, both `None` for a local group or a
-    wildcard item). -/
+    wildcard item; named groups and references to them carry the name of the global group). -/
+def nameOf (C : Ctx) (p : Particle) : Option QN :=
+  match p with
+  | .leaf (.elem _ names) _ _ => names.head?
+  | .leaf (.any ..) _ _ => none
+  | .group i _ _ _ _ => (C.of i).gname
+
 def isMatching (C : Ctx) (other item : Particle) : Bool :=
   match other with
-  | .leaf (.elem _ names) _ _ => match item.name with | none => false | some q => names.contains q
+  | .leaf (.elem _ names) _ _ => match nameOf C item with | none => false | some q => names.contains q
   | .leaf (.any _ w) _ _ =>
-      match item.name with
+      match nameOf C item with
       | none => false
       | some q =>
         if C.v11 then allows w (fun _ => (C.of item.pid).isGlobal) (fun _ => false) q
         else nsAllowed w q.ns
-  | .group .. => item.name.isNone
+  | .group j _ _ _ _ => nameOf C item == (C.of j).gname
 
 /-- wildcard `other.is_matching(self.name, …)` for a *declared* element particle `i`
     (XSD 1.1: `##defined` excludes names of global declarations). -/
@@ -290,7 +304,7 @@ abbrev Rec := Particle → Particle → Bool → Except Err Bool
 def anyRestr (C : Ctx) (self other : Particle) (co : Bool) : Bool :=
   match self, other with
   | .leaf (.any i w) lo hi, .leaf (.any j ow) olo ohi =>
-    if co && !(hi == some 0 || hasOccursRestriction lo hi olo ohi) then false
+    if co && !((!C.repaired && hi == some 0) || hasOccursRestriction lo hi olo ohi) then false
     else isRestriction w ow (C.of i).pc (C.of j).pc
   | _, _ => false
 
@@ -333,7 +347,7 @@ def elemRestr (C : Ctx) (rec : Rec) (self other : Particle) (co : Bool) : Except
   | .leaf (.elem i names) lo hi =>
     match other with
     | .leaf (.any _ w) olo ohi =>
-      if lo == 0 && hi == some 0 then pure true
+      if lo == 0 && hi == some 0 then pure (!C.repaired || !co || olo == 0)
       else if co && !hasOccursRestriction lo hi olo ohi then pure false
       else match names.head? with
         | none => pure false
@@ -497,7 +511,7 @@ def choiceRestriction10 (C : Ctx) (rec : Rec) (self other : Particle) : Except E
     `none` = fall through to the model-specific rules -/
 def restrPrelude (C : Ctx) (rec : Rec) (self other : Particle) (co : Bool) :
     Except Err (Option Bool) := do
-  if self.items.isEmpty then return some true
+  if self.items.isEmpty then return some (!C.repaired || !co || emptiable other)
   if !other.isGroup then return some (← elementRestriction C rec self other)
   if other.items.isEmpty then return some false
   match other.items with
@@ -647,7 +661,7 @@ def allRestriction11 (C : Ctx) (rec : Rec) (self other : Particle) : Except Err 
     for g in left do
       if !(← rec g other true) then return false
       for item in notEmptiable do
-        if !(g.items.any fun e => e.name == item.name) then return false
+        if !(g.items.any fun e => nameOf C e == nameOf C item) then return false
     return true
 
 /-- `Xsd11Group.is_choice_restriction` (groups.py:1490-1542) -/
@@ -751,6 +765,42 @@ def groupIsEmpty (C : Ctx) (g : Particle) : Bool :=
 def typeRestrictionAccepted (C : Ctx) (d b : Particle) : Except Err Bool := do
   let r ← contentRestriction C d b
   return admitsRestriction C b d.kind && !(groupIsEmpty C b && !groupIsEmpty C d) && r
+
+/-! ### XSD 1.1 open content -/
+
+/-- `XsdOpenContent` as built: the mode and the wildcard (`any_element`, with its particle id) -/
+structure OC where
+  mode : OpenMode
+  any : Option (Nat × Wc) := none
+  deriving Repr, Inhabited
+
+/-- `XsdOpenContent.is_restriction` (wildcards.py:934-940); the wildcards of an open content carry the
+    default occurrences {1,1} (the element xs:any under xs:openContent has no occurrence attributes) -/
+def ocRestriction (C : Ctx) (self : OC) (other : Option OC) : Bool :=
+  match other with
+  | none => self.mode == .none
+  | some o =>
+    if o.mode == .none then self.mode == .none
+    else match self.any with
+      | none => false
+      | some (i, w) =>
+        if self.mode == .interleave && o.mode == .suffix then false
+        else match o.any with
+          | some (j, ow) => anyRestr C (.leaf (.any i w) 1 (some 1)) (.leaf (.any j ow) 1 (some 1)) true
+          | none => false
+
+/-- the open-content clause of the complex-content restriction (complex_types.py:402-405); the pinned
+    code checks it only when the derived content group has items (finding C14-F7) -/
+def ocAccepted (C : Ctx) (d : Particle) (ocd ocb : Option OC) : Bool :=
+  match ocd with
+  | none => true
+  | some o => (!C.repairedOC && d.items.isEmpty) || ocRestriction C o ocb
+
+/-- the language of a type: its content model under its open content -/
+def typeRx (p : Particle) (oc : Option OC) : Rx Leaf :=
+  match oc with
+  | some ⟨mode, some (i, w)⟩ => withOpen mode (.any i w) p.toRx
+  | _ => p.toRx
 
 /-- the rule answered `True` (neither `False` nor an error value) -/
 def okTrue : Except Err Bool → Bool
